@@ -145,9 +145,7 @@ mod verif_segtree {
         let t = MinSegTree(v);
         kani::assume(rep_inv::<N>(&t, BOUND));
         kani::cover!(true, "assumed region (rep_inv) is reachable");
-        if N >= 2 {
-            kani::cover!(t.0[1].delta != 0, "rep_inv admits pending deltas at the root");
-        }
+        kani::cover!(t.0[1].delta != 0, "rep_inv admits pending deltas at the root");
         t
     }
 
@@ -180,9 +178,7 @@ mod verif_segtree {
             // accepted domain of add_split: its own `assert!(i <= size)` (size = padded length)
             kani::assume(i <= size && bounded(l, BOUND) && bounded(r, BOUND));
             kani::cover!(true, "valid add_split arguments exist");
-            if size > N {
-                kani::cover!(i > N, "split point inside the padding is reachable");
-            }
+            kani::cover!(size == N || i > N, "split point inside the padding is reachable (if there is padding)");
             t.add_split(i, l, r);
             model_add_split(&mut model, i, l, r);
             assert!(same(&view::<N>(&t), &model));
@@ -203,12 +199,8 @@ mod verif_segtree {
         let r: i32 = kani::any();
         kani::assume(i <= size && bounded(l, BOUND) && bounded(r, BOUND));
         kani::cover!(true, "valid add_split arguments exist");
-        if size >= 2 {
-            kani::cover!(i != 0 && i != size, "inner split point reachable");
-        }
-        if size > N {
-            kani::cover!(i > N, "split point inside the padding is reachable");
-        }
+        kani::cover!(size < 2 || (i != 0 && i != size), "inner split point reachable (if there is one)");
+        kani::cover!(size == N || i > N, "split point inside the padding is reachable (if there is padding)");
 
         t.add_split(i, l, r);
 
